@@ -14,8 +14,25 @@ from .hist import Index
 NAMES = ["simdev", "simdeV", "simde", "other", "othex", "a", "living-room-node", "dév", "dev", "", "simdev "]
 
 
+def edge_key(rng: random.Random) -> str:
+    """A valid 32-byte key; in a fifth of the cases its first / last raw bytes are values that text handling likes to
+    mangle (ASCII whitespace, NUL, 0xff, '=' and '/')."""
+    raw = bytearray(rng.getrandbits(8) for _ in range(32))
+    if rng.random() < 0.2:
+        edge = [0x09, 0x0A, 0x0B, 0x0C, 0x0D, 0x20, 0x00, 0xFF, 0x3D, 0x2F]
+        if rng.random() < 0.7:
+            raw[0] = rng.choice(edge)
+        if rng.random() < 0.7:
+            raw[-1] = rng.choice(edge)
+    return base64.b64encode(bytes(raw)).decode()
+
+
 def noise_ready_oracle(ix: Index, scn: dict) -> list[Violation]:
     out: list[Violation] = []
+    # the key is valid base64 for exactly 32 bytes: building the helper / starting the session must not be refused
+    for op in ix.ops:
+        if op.do in ("fh.attach", "connect") and op.s1 is not None and not op.ok and "InvalidEncryptionKeyAPIError" in ((op.err or {}).get("mro") or []) and "alformed" in ((op.err or {}).get("text") or ""):
+            out.append(Violation("valid-key-rejected", "", f"{op.do} refused a valid 32-byte key: {(op.err or {}).get('text')}"))
     exp = scn.get("expected_name")
     dev_name = scn["device"].get("noise_name", scn["device"].get("name", "simdev"))
     has_name = scn["device"].get("noise_hello_name", True)
@@ -70,7 +87,7 @@ def noise_ready_oracle(ix: Index, scn: dict) -> list[Violation]:
 def helper_case(rng: random.Random, cuts: dict, base: dict | None = None) -> dict:
     tiny = cuts.get("mode") == "sizes" and min(cuts.get("sizes", [99])) < 16
     if base is None:
-        psk = base64.b64encode(bytes(rng.getrandbits(8) for _ in range(32))).decode()
+        psk = edge_key(rng)
         name = pick(rng, NAMES)
         has_name = rng.random() < 0.8
         exp = pick(rng, [None, None, name or None, name or None, pick(rng, NAMES[:9])])
@@ -127,7 +144,7 @@ class C03(CheckBase):
             yield helper_case(rng, pick(rng, [{"mode": "sizes", "sizes": sizes}, {"mode": "sizes", "sizes": [1]}, {"mode": "sends"}, {"mode": "coalesce"}, {"mode": "sizes", "sizes": sizes, "gap": 0.001}]))
         else:
             # through the full client
-            psk = base64.b64encode(bytes(rng.getrandbits(8) for _ in range(32))).decode()
+            psk = edge_key(rng)
             name = pick(rng, NAMES)
             exp = pick(rng, [None, name or None, name or None, "other"])
             sizes = [pick(rng, [1, 2, 3, 7, 20, 50, 128, 1000]) for _ in range(rng.randint(1, 5))]
